@@ -77,6 +77,8 @@ def classify(text, r):
             return "structure-initialization-type-declaration-base-dropped"
         if "INTERNAL :=" in line:
             return "render-task-interval-keyword"
+        if line.strip().startswith("VAR_GLOBAL") and re.search(r"\bRESOURCE\b", out[:out.find(line)] if line in out else ""):
+            return "render-configuration-globals"
         if re.search(r"(L?REAL)#[-+]?\d+(?![\d.])", line):
             return "render-real-integral-as-integer"
         return None
@@ -88,6 +90,8 @@ def classify(text, r):
             return "render-real-integral-as-integer"
         if "ArrayDeclaration.init" in d:
             return "render-array-initial-values"
+        if "global_var" in d:
+            return "render-configuration-globals"
         return None
     return None
 
